@@ -1,7 +1,7 @@
 """C12 — barrier: nobody passes round k before all arrived; reusable at once (structural part)."""
 from core import strip, is_field, key_mentions, order_ge, key_str
 from facts import AnalysisBroken
-from rules import (nodeset, ev, Unevaluable, forced_edges, atom_from, reach, atomic_ops, ret_const, is_var_load)
+from rules import (check_init, nodeset, ev, Unevaluable, forced_edges, atom_from, reach, atomic_ops, ret_const, is_var_load)
 
 EXPLANATION = (
     "Decides the arrival protocol's structure: one atomic fetch-add per arrival; the arrival whose number is a multiple "
@@ -174,7 +174,7 @@ def run(ctx):
                construct="wait and wake lists differ")
     else:
         raise AnalysisBroken("barrier round separation: shape is neither the defective one nor a recognised certificate")
-
+    check_init(ctx, P, "fiber_barrier_init", [("fiber_barrier", "counter", 0), ("fiber_barrier", "count", "param:count")], calls=[("mpsc_fifo_init", 1)])
 
 def subst(key, mapping):
     if not isinstance(key, tuple):
